@@ -98,17 +98,19 @@ Extract(rec, loc) ==
     LET w == TransWalk(loc)
     IN  [k \in 1..Len(w) |-> IF loc.strand = -1 THEN Comp(rec[w[k] + 1]) ELSE rec[w[k] + 1]]
 
-(* verdict for one call scan(s, d, off, min, rl) = r (a sequence of locations) *)
-ScanFailed(s, d, off, min, rl, r) ==
+(* verdict for one call scan(s, d, off, min, rl) = r (a sequence of locations); O = OrfsOf(s) is
+   passed in so that a bundle of calls on one string computes it once *)
+ScanFailedWith(O, s, d, off, min, rl, r) ==
     LET n == Len(s)
         W == {TransWalk(r[i]) : i \in DOMAIN r}
         WalkOf(o) == OrfWalk(n, d, off, rl, o)
     IN  (IF \A i \in DOMAIN r : PartsOK(rl, r[i]) THEN {} ELSE {"location_well_formed"})
         \cup (IF \A i \in DOMAIN r : r[i].strand = d THEN {} ELSE {"strand_is_search_direction"})
-        \cup (IF {WalkOf(o) : o \in MustOrfs(s, min)} \subseteq W THEN {} ELSE {"every_orf_reported"})
-        \cup (IF W \subseteq {WalkOf(o) : o \in OrfsOf(s)} THEN {} ELSE {"only_orfs_reported"})
+        \cup (IF {WalkOf(o) : o \in {x \in O : OrfLen(x) > min}} \subseteq W THEN {} ELSE {"every_orf_reported"})
+        \cup (IF W \subseteq {WalkOf(o) : o \in O} THEN {} ELSE {"only_orfs_reported"})
         \cup (IF \A w \in W : Len(w) >= min THEN {} ELSE {"shorter_than_minimum_not_reported"})
         \cup (IF Cardinality(W) = Len(r) THEN {} ELSE {"each_orf_reported_once"})
+ScanFailed(s, d, off, min, rl, r) == ScanFailedWith(OrfsOf(s), s, d, off, min, rl, r)
 
 (* --- translation -------------------------------------------------------------- *)
 (* NCBI tables 1 and 11 assign the same amino acids; TCAG order, ASCII codes of     *)
@@ -147,7 +149,12 @@ GapsFailed(genes, ws, we, min, pad, gaps) ==
 
 (* --- extra ORFs of a record / area ---------------------------------------------- *)
 (* rec: the record's bases; genes: set of locations; area: location or Loc(<<>>, 1)   *)
-(* for the whole record; found: sequence of [loc, tr] (location, protein as ASCII)    *)
+(* for the whole record; found: sequence of [loc, tr] (location, protein as ASCII).   *)
+(* The statement only claims soundness ("only returns ORFs lying in the gaps").  The  *)
+(* one completeness clause is for the case without any gene, where the gap is the     *)
+(* searched area itself (pinned by the repository's tests); an origin-crossing area   *)
+(* with a part shorter than the minimum is left unspecified (the code drops short     *)
+(* parts before joining the two halves).                                               *)
 AreaBases(L, area) == IF Len(area.parts) = 0 THEN 0..(L - 1) ELSE Bases(area)
 AreaWalk(L, area) == IF Len(area.parts) = 0 THEN [k \in 1..L |-> k - 1] ELSE Walk(area)
 ExtraFailed(rec, genes, area, min, ovl, found) ==
@@ -169,5 +176,6 @@ ExtraFailed(rec, genes, area, min, ovl, found) ==
         \cup (IF \A i \in DOMAIN found : (PartsOK(L, found[i].loc) /\ IsOrfString(X(i))) => found[i].tr = ProteinOf(X(i))
               THEN {} ELSE {"translation_matches_location"})
         \cup (IF Cardinality(W) = Len(found) THEN {} ELSE {"each_orf_reported_once"})
-        \cup (IF genes = {} => MustWalks \subseteq W THEN {} ELSE {"complete_when_no_genes"})
+        \cup (IF (genes = {} /\ \A i \in DOMAIN area.parts : area.parts[i][2] - area.parts[i][1] >= min) => MustWalks \subseteq W
+              THEN {} ELSE {"complete_when_no_genes"})
 =============================================================================
